@@ -19,6 +19,8 @@
 
   Randomness is input: `State.dice` is the list of the generator calls still to come
   (one list of uniforms per call); a step in which some vial is liquid consumes the head.
+  (`run()` restarts the generator at the seed and redraws the shelf coefficients before the
+  loop; the shelf coefficient vector as used is an input, `Params.kShelf`.)
 
   The interaction structure is an abstract input (`nbrs`, `ext`); the topology
   itself is the subject of C09.  Everything numeric is polymorphic in `[Transc α]`.
@@ -247,7 +249,7 @@ def assignDice : List Bool → List α → List α
 
 /-! ### one step of the batch -/
 
-/-- `t[k]` of `np.arange(0, N*dt, dt)` -/
+/-- `t[k]` of `np.arange(N) * dt` -/
 def timeAt (dt : α) (k : Nat) : α := ofNat' k * dt
 
 def anySolid (s : State α) : Bool := s.vials.any fun v => !(isLiquid v)
@@ -311,9 +313,9 @@ structure Inputs (α : Type) where
 /-- `N_timeSteps = int(np.ceil(t_tot/dt)) + 1` -/
 def nTimeSteps (inp : Inputs α) : Nat := nSteps inp.oc.t_tot inp.p.dt
 
-/-- `t = np.arange(0, N_timeSteps*dt, dt)` -/
+/-- `t = np.arange(N_timeSteps) * dt`: one time per step -/
 def timeVec (N : Nat) (dt : α) : List α :=
-  (List.range (arangeLen (ofNat' N * dt) dt)).map (timeAt dt)
+  (List.range N).map (timeAt dt)
 
 /-- `opcond.cnt`: `none` is `np.inf` -/
 def cntTime (oc : OpCond α) (cnTemp : Option α) : Option α :=
